@@ -67,6 +67,7 @@ type loopInfo struct {
 	writes  map[string]bool
 	all     bool
 	preserve []string
+	localOnly map[string][]*ssa.Alloc
 	// evaluation of candidates: functions from (phi substitution, state) to formula
 	cands []func(sub map[ssa.Value]*Val, st State) string
 	cidx  []int // index into Enc.cands
@@ -111,6 +112,7 @@ type Enc struct {
 	dyn      map[ssa.Value]types.Type // interface-typed parameters specialised to a dynamic type
 	spec     map[string]string        // parameter name -> type string (from the property config)
 	litOf       map[string]string // SMT symbol of a string literal -> its Go value
+	sortedByAdded bool
 	storeOrd    map[*ssa.Store]int
 	callRegion  int
 	siteOrd     map[*ssa.Call]int
